@@ -217,7 +217,7 @@ func dumpWorld(c *fw.Case, e *engine.Exec) {
 	}
 	dumped[c] = true
 	for _, ev := range e.W.Events() {
-		line := fmt.Sprintf("#%d inc%d %-22s %-18s %s ok=%v", ev.Seq, ev.Inc, ev.Task, ev.Kind, ev.Target, ev.OK)
+		line := fmt.Sprintf("#%d +%dms inc%d %-22s %-18s %s ok=%v", ev.Seq, ev.AtMs, ev.Inc, ev.Task, ev.Kind, ev.Target, ev.OK)
 		switch {
 		case ev.Cfg != nil:
 			s := ev.Cfg.Status
